@@ -96,6 +96,10 @@ def paths(stmts, env=None, pure_calls=(), effects=False, opaque=False, strict_ex
         walk(list(st.body) + todo, env, conds + [(test, True)])
         walk(list(st.orelse) + todo, env, conds + [(test, False)])
         return
+      if isinstance(st, ast.Return) and isinstance(st.value, ast.IfExp):
+        # `return a if c else b` is `if c: return a` / `else: return b`
+        todo = [ast.If(test=st.value.test, body=[ast.Return(value=st.value.body)], orelse=[ast.Return(value=st.value.orelse)])] + todo
+        continue
       if isinstance(st, (ast.Continue, ast.Break, ast.Return, ast.Raise)):
         if isinstance(st, ast.Return) and st.value is not None:
           env = dict(env)
